@@ -738,11 +738,16 @@ static int restore_mapping (char **str, svalue_t * sv) {
   int err;
 
   if (save_svalue_depth)
-    size = save_svalue_sizes[save_svalue_depth - 1];
+    {
+      /* sizes were counted by an earlier pass; damaged text can leave the bookkeeping inconsistent */
+      if (!save_svalue_sizes || save_svalue_depth > save_max_depth)
+        return ROB_MAPPING_ERROR;
+      size = save_svalue_sizes[save_svalue_depth - 1];
+    }
   else if ((size = restore_size (str, 1)) < 0)
     {
       debug_error ("corrupted");
-      return 0;
+      return ROB_MAPPING_ERROR; /* not "success": the caller would go on with the half-counted nesting state */
     }
 
   if (!size)
@@ -988,7 +993,11 @@ static int restore_class (char **str, svalue_t * ret) {
   int err;
 
   if (save_svalue_depth)
-    size = save_svalue_sizes[save_svalue_depth - 1];
+    {
+      if (!save_svalue_sizes || save_svalue_depth > save_max_depth)
+        return ROB_CLASS_ERROR;
+      size = save_svalue_sizes[save_svalue_depth - 1];
+    }
   else if ((size = restore_size (str, 0)) < 0)
     return ROB_CLASS_ERROR;
 
@@ -1089,7 +1098,11 @@ static int restore_array (char **str, svalue_t * ret) {
   int err;
 
   if (save_svalue_depth)
-    size = save_svalue_sizes[save_svalue_depth - 1];
+    {
+      if (!save_svalue_sizes || save_svalue_depth > save_max_depth)
+        return ROB_ARRAY_ERROR;
+      size = save_svalue_sizes[save_svalue_depth - 1];
+    }
   else if ((size = restore_size (str, 0)) < 0)
     return ROB_ARRAY_ERROR;
 
